@@ -12,6 +12,7 @@
               a column renderer            PTuple [60; datatype; ctx; PList (the values update() was called with)]
                                            (update appends; prepare() is pure here and answers Render.st_width of
                                            Render.col_prepare over those values; format reads the same state)
+              renderer.align               0 = Align.LEFT, 1 = Align.RIGHT (IntRenderer only: Render.align_of)
               Column(name, datatype)       PTuple [63; name; datatype]
               csv.writer(file)             PTuple [62; the text written so far]  (excel dialect: Render.csv_record)
               Decimal.as_tuple()           PTuple [50; sign; PTuple digits; exponent]
@@ -208,7 +209,8 @@ Definition line_of (v : pv) : option (list str) :=
 Definition enc_rcolumn (d : str * dtype) : pv := PTuple [PInt 63; enc_s (fst d); enc_rdtype (snd d)].
 Definition csv_writer (content : str) : pv := PTuple [PInt 62; enc_s content].
 
-Definition as_int (v : pv) : option Z := match v with PV (VInt z) => Some z | _ => None end.
+Definition as_int (v : pv) : option Z :=
+  match v with PV (VInt z) => Some z | PV (VBool b) => Some (if b then 1 else 0) | _ => None end.
 Definition as_boolv (v : pv) : option bool := match v with PV (VBool b) => Some b | _ => None end.
 
 Section Top.
@@ -254,6 +256,17 @@ Definition prims_top (name : string) (args : list pv) : res pv :=
         | Some [] => Exc ValueError
         | None => Stuck
         end
+    | _ :: _ :: _ :: _ =>               (* max(x1, .., xn), n >= 3, ints (a bool counts as 0 / 1; all-int results) *)
+        match n_map_opt as_int args with
+        | Some (z :: zs) => Ok (PInt (fold_left Z.max zs z))
+        | _ => Stuck
+        end
+    | _ => Stuck
+    end
+  else if String.eqb name "attr:align" then
+    match args with
+    | [PTuple [PV (VInt 60); t; _; _]] =>
+        match dec_rdtype t with Some TInt => Ok (PInt 1) | Some _ => Ok (PInt 0) | None => Stuck end
     | _ => Stuck
     end
   else if String.eqb name "zip*" then
